@@ -98,6 +98,7 @@ func spell(l Line, h2 bool) string {
 type stackKey struct {
 	probe, ph, custom bool
 	prefix            string
+	late              bool // the custom injector is appended to the handler after construction
 }
 type connKey struct {
 	sk    stackKey
@@ -252,7 +253,7 @@ func main() {
 	}
 	groups := map[connKey][]Scenario{}
 	for _, s := range scs {
-		k := connKey{stackKey{s.Req.Probe, s.Req.PreserveHost, s.Req.Custom != "absent", s.Req.Prefix}, s.Req.Proto, s.Req.Kind, s.Req.Proto == "h2" && s.ID%2 == 1}
+		k := connKey{stackKey{s.Req.Probe, s.Req.PreserveHost, s.Req.Custom != "absent", s.Req.Prefix, s.Req.Custom != "absent" && (s.ID/2)%2 == 0}, s.Req.Proto, s.Req.Kind, s.Req.Proto == "h2" && s.ID%2 == 1}
 		groups[k] = append(groups[k], s)
 	}
 	stacks := map[stackKey]*stack.Stack{}
@@ -261,10 +262,13 @@ func main() {
 			continue
 		}
 		inj := stack.DefaultInjectors(^uint(0))
-		if k.sk.custom {
+		var late []reverseproxy.HeaderInjector
+		if k.sk.custom && k.sk.late {
+			late = append(late, reverseproxy.HeaderInjector(customInjector{})) // user code that extends the handler after it was built
+		} else if k.sk.custom {
 			inj = append(inj, reverseproxy.HeaderInjector(customInjector{}))
 		}
-		st, err := stack.Start(stack.Options{Probe: k.sk.probe, PreserveHost: k.sk.ph, Injectors: inj, ForwardPath: k.sk.prefix})
+		st, err := stack.Start(stack.Options{Probe: k.sk.probe, PreserveHost: k.sk.ph, Injectors: inj, LateInjectors: late, ForwardPath: k.sk.prefix})
 		if err != nil {
 			panic(err)
 		}
